@@ -88,6 +88,7 @@ class Aff:
         return None
 
     BOUNDS = {}     # loop symbols: sym -> (lo Aff inclusive, hi Aff exclusive)
+    HALF = {}       # symbols standing for floor(a/2) of an integer form a of undetermined parity: name -> a
     FACTS = []      # path facts: affine forms known to be >= 0 inside the branch being interpreted
 
     def _bound(self, lower):
